@@ -24,7 +24,7 @@ MANIFEST = dict(
          "both proved as counterexamples and listed as known findings); out-of-range positions/rows are refused with the state unchanged; "
          "xmp_set_row lands on tick 0 of the row; next/prev move to the neighbouring order of the sequence (skip markers and pattern-less orders "
          "passed over, loops proved terminating), stay put at the list end / sequence end / foreign orders and restart the entry order; "
-         "xmp_seek_time selects the greatest candidate order; restart re-enters the first pattern of the sequence with loop count 0; stop ends; "
+         "xmp_seek_time selects the greatest candidate order; restart re-enters the first pattern of the sequence with loop count 0 and no pending delay/break/jump/loop for every pre-state incl. mid pattern delay (C17_restart; on jump-free generated modules the harness also renders the next pass and compares its length with the reported duration); stop ends; "
          "a player (re)start inside a history (xmp_end_player + xmp_start_player, or xmp_start_player on the playing context, with another "
          "sub-song selected) re-establishes sequence 0 and the relative / time calls that follow act in sequence 0 (C17_start_player, "
          "C17_next_after_start, C17_seek_after_start). "
@@ -110,6 +110,51 @@ def gen_subsongs(rng, path):
         f.write("R " + " ".join(map(str, rows)) + "\n")
         for (p, row, c, fxt, fxp) in ev:
             f.write("E %d %d %d 0 0 %d %d 0 0\n" % (p, row, c, fxt, fxp))
+    return path
+
+
+def gen_interleaved(rng, path):
+    """Sub-songs whose orders interleave: every order has its own pattern, whose last row jumps to the
+    next order of the same sub-song (the last one back to the sub-song's first order)."""
+    nsub = rng.randint(2, 3)
+    ln = rng.randint(nsub + 1, 8)
+    owner = [rng.randrange(nsub) for _ in range(ln)]
+    owner[0] = 0
+    for q in range(nsub):
+        if q not in owner:
+            owner[rng.randrange(1, ln)] = q
+    owner[0] = 0
+    rows = [rng.choice([2, 4, 8]) for _ in range(ln)]
+    chn = rng.randint(1, 2)
+    ev = []
+    for i in range(ln):
+        mine = [j for j in range(ln) if owner[j] == owner[i]]
+        nxt = mine[(mine.index(i) + 1) % len(mine)]
+        ev.append((i, rows[i] - 1, 0, 0x0b, nxt))
+    with open(path, "w") as f:
+        f.write("H %d %d %d 0 0 %d %d %d 125\n" % (chn, ln, ln, int(rng.random() < 0.3), int(rng.random() < 0.4), rng.choice([1, 2, 3])))
+        f.write("O " + " ".join(map(str, range(ln))) + "\n")
+        f.write("R " + " ".join(map(str, rows)) + "\n")
+        for (p, row, c, fxt, fxp) in ev:
+            f.write("E %d %d %d 0 0 %d %d 0 0\n" % (p, row, c, fxt, fxp))
+    return path
+
+
+def gen_linear(rng, path):
+    """Straight playback only (file name lin*): no jump, break, loop or tempo effect, many pattern
+    delays.  One pass lasts exactly the scanned duration, which the harness checks after restarts."""
+    npat = rng.randint(1, 3)
+    ln = rng.randint(1, 4)
+    chn = rng.randint(1, 3)
+    rows = [rng.choice([4, 8, 16, 32]) for _ in range(npat)]
+    with open(path, "w") as f:
+        f.write("H %d %d %d 0 0 %d 0 %d 125\n" % (chn, npat, ln, int(rng.random() < 0.5), rng.choice([1, 2, 3, 6])))
+        f.write("O " + " ".join(str(rng.randrange(npat)) for _ in range(ln)) + "\n")
+        f.write("R " + " ".join(map(str, rows)) + "\n")
+        for p in range(npat):
+            for row in range(rows[p]):
+                if rng.random() < 0.4:
+                    f.write("E %d %d %d 0 0 14 %d 0 0\n" % (p, row, rng.randrange(chn), 0xe0 | rng.randint(1, 15)))
     return path
 
 
@@ -248,7 +293,14 @@ def run(ck):
     sdir = os.path.join(vlib.OUT, "c17-synth-%d" % ck.seed)
     os.makedirs(sdir, exist_ok=True)
     nsynth = 300 if quick else 4000
-    synth = [(gen_subsongs if i % 3 == 0 else gen_synth)(ck.rng, os.path.join(sdir, "s%04d.synth" % i)) for i in range(nsynth)]
+    def one(i):
+        if i % 12 == 5:
+            return gen_linear(ck.rng, os.path.join(sdir, "lin%04d.synth" % i))
+        gen = gen_subsongs if i % 3 == 0 else gen_interleaved if i % 6 == 1 else gen_synth
+        return gen(ck.rng, os.path.join(sdir, "s%04d.synth" % i))
+    for old in os.listdir(sdir):
+        os.unlink(os.path.join(sdir, old))
+    synth = [one(i) for i in range(nsynth)]
     corpus = [f for f in vlib.corpus_files() if os.path.getsize(f) < (600000 if quick else 30000000)]
     fixed = [f for f in corpus if "/test/test." in f]
     rest = [f for f in corpus if f not in fixed]
@@ -354,6 +406,10 @@ def evaluate(ck, exe, results):
                 pre = c["pre"].split(" ")
                 op = c["op"].split(" ")[0]
                 bump("op_" + op)
+                if op == "restart_module" and os.path.basename(md["file"]).startswith("lin"):
+                    bump("restart_duration_passes")
+                    if pre[13] != "0":
+                        bump("restart_duration_passes_mid_pattern_delay")
                 if op == "start_player" and pre[9] != "0":
                     bump("player_starts_with_other_sequence_selected")
                 if prev_op == "start_player" and op in ("next_position", "prev_position", "seek_time"):
